@@ -47,9 +47,11 @@ def main(tier, replay):
     canon = {}
     nodes = {}
     for name, s, cn in shp:
-        P[name] = progs.shape_program(name, s)
         canon[name] = cn
         nodes[name] = cn.count('L') + cn.count('{') - 1
+        # shapes with more than 3 nodes get fixed-width leaves only: their jobs run with EMPTY strings (string lengths
+        # multiply the structure space), and a string leaf that the generated code loses would then be invisible
+        P[name] = progs.shape_program(name, s) if nodes[name] <= 3 else progs.shape_program(name, s, rot=('int32', 'bool'))
     # the eight primitive types in every repetition: Flat24 and the per-type programs (all templates)
     core = {'flat24': progs.flat24()}
     core.update(progs.flat_types())
